@@ -1,5 +1,6 @@
 import MW.Staking.Migrate
 import MW.Lemmas
+import MW.Staking.Interface
 /-!
 # C18 — Migrations are version-gated and preserve every value-bearing record
 
@@ -148,5 +149,14 @@ theorem treasury_gate (stored r : Option (String × String)) (h : treasuryMigrat
                        linflight := [(5, { seq := 5, amount := 700, status := .ackFailure })] }
   (migrate st .v100).toOption.map (·.inflight)
     == some [(5, { seq := 5, coin := ⟨"ibc/X", 700⟩, receiver := "celestia1s", status := .ackFailure })]
+
+/-- the migration paths the source declares (table regenerated from /repo's `MigrateMsg` on every run) are exactly the
+three the model covers, with the same parameters; `MigrateMsg` has one constructor per path -/
+theorem migration_paths_are_the_modelled_ones :
+    MW.Generated.Interface.staking_migrate = MW.Interface.model_staking_migrate
+    ∧ (∀ m : MigrateMsg, MW.Interface.migrateTag m ∈ MW.Interface.names MW.Generated.Interface.staking_migrate)
+    ∧ MW.Generated.Interface.treasury_migrate = [] :=
+  ⟨MW.Interface.staking_migrate_eq, by rw [MW.Interface.staking_migrate_eq]; exact MW.Interface.migrate_tag_pinned,
+   MW.Interface.treasury_rest_eq.2.2.1⟩
 
 end MW.Props.C18
